@@ -45,3 +45,9 @@ Theorem C19_undecided_cells_never_raise :
   forall op a b, decided op b = false -> cpy_cmp_raises op a b = false.
 Proof. exact undecided_cells_never_raise. Qed.
 Print Assumptions C19_undecided_cells_never_raise.
+
+(* without the exclusion, C19_result_conforms is false: the witness is the recorded finding *)
+Theorem C19_pow_int_int_refuted :
+  T "Pow" CInt CInt <> PImpossible /\ exists r, In r (cpy_binop "Pow" CInt CInt) /\ conforms r (T "Pow" CInt CInt) = false.
+Proof. exact pow_int_int_refuted. Qed.
+Print Assumptions C19_pow_int_int_refuted.
